@@ -66,18 +66,18 @@ func lapackRows() []*lroutine {
 	add(row("Dgetrs", fTrans3(), ldim("n", "nrhs"), lmat("a", n, n), ivecEq("ipiv", n, msgBadLenIpiv), lmat("b", n, nrhs)))
 	add(row("Dgetri", ldim("n"), lmat("a", n, n), ivecEq("ipiv", n, msgBadLenIpiv), lwork(n)))
 	add(row("Dgesv", ldim("n", "nrhs"), lmat("a", n, n), ivecEq("ipiv", n, msgBadLenIpiv), lmat("b", n, nrhs)))
-	add(row("Dgecon", fNorm2(), ldim("n"), lmat("a", n, n), lscalar("anorm", 1), lvec("work", times(4, n)), ivec("iwork", n, msgShortIWork)))
+	add(row("Dgecon", fNorm2(), ldim("n"), lmat("a", n, n), lscalar("anorm", 1), lvec("work", times(4, n)), ivec("iwork", n, msgShortIWork)).also("anorm", 0))
 
 	// ---- Cholesky ----
 	for _, name := range []string{"Dpotrf", "Dpotf2", "Dpotri", "Dlauum", "Dlauu2"} {
 		add(row(name, fUplo(), ldim("n"), lmat("a", n, n)))
 	}
 	add(row("Dpotrs", fUplo(), ldim("n", "nrhs"), lmat("a", n, n), lmat("b", n, nrhs)))
-	add(row("Dpocon", fUplo(), ldim("n"), lmat("a", n, n), lscalar("anorm", 1), lvec("work", times(3, n)), ivec("iwork", n, msgShortIWork)))
+	add(row("Dpocon", fUplo(), ldim("n"), lmat("a", n, n), lscalar("anorm", 1), lvec("work", times(3, n)), ivec("iwork", n, msgShortIWork)).also("anorm", 0))
 	add(row("Dpbtrf", fUplo(), ldim("n", "kd"), lband("ab", n, plus(kd, 1), msgBadLdA)))
 	add(row("Dpbtf2", fUplo(), ldim("n", "kd"), lband("ab", n, plus(kd, 1), msgBadLdA)))
 	add(row("Dpbtrs", fUplo(), ldim("n", "kd", "nrhs"), lband("ab", n, plus(kd, 1), msgBadLdA), lmat("b", n, nrhs)))
-	add(row("Dpbcon", fUplo(), ldim("n", "kd"), lband("ab", n, plus(kd, 1), msgBadLdA), lscalar("anorm", 1), lvec("work", times(3, n)), ivec("iwork", n, msgShortIWork)))
+	add(row("Dpbcon", fUplo(), ldim("n", "kd"), lband("ab", n, plus(kd, 1), msgBadLdA), lscalar("anorm", 1), lvec("work", times(3, n)), ivec("iwork", n, msgShortIWork)).also("anorm", 0))
 	for _, name := range []string{"Dpstrf", "Dpstf2"} {
 		add(row(name, fUplo(), ldim("n"), lmat("a", n, n), ivecEq("piv", n, msgBadLenPiv), lscalar("tol", -1), lvec("work", times(2, n))))
 	}
@@ -121,9 +121,10 @@ func lapackRows() []*lroutine {
 		intv("incv", cst(2)), lscalar("tau", 0.5), lmat("c", m, n), lvec("work", left(n, m))).
 		mod("incv", func(a *larg) {
 			a.extra = func(*lenv) []lextra { return []lextra{{val: 0, msg: "lapack: incv == 0"}} }
-		}))
+		}).also("tau", 0))
 	add(row("Dlarfx", fSide(), ldim("m", "n"), lvec("v", left(m, n)), lscalar("tau", 0.5), lmat("c", m, n), lvec("work", left(n, m))).
-		mod("work", func(a *larg) { a.onlyIf = func(e *lenv) bool { return left(m, n)(e) > 10 } })) // the special-cased orders 1..10 need no workspace
+		mod("work", func(a *larg) { a.onlyIf = func(e *lenv) bool { return left(m, n)(e) > 10 } }). // the special-cased orders 1..10 need no workspace
+		also("tau", 0))
 	add(row("Dlarft", fDirect(), fStoreV(), ldim("n", "k"),
 		lmat("v", ifEq("store", byte(lapack.ColumnWise), n, k), ifEq("store", byte(lapack.ColumnWise), k, n)),
 		lvec("tau", k), lmat("t", k, k)).
@@ -150,7 +151,7 @@ func lapackRows() []*lroutine {
 	add(row("Dptsv", ldim("n", "nrhs"), lvec("d", n), lvec("e", n1), lmat("b", n, nrhs)))
 	add(row("Dpttrf", ldim("n"), lvec("d", n), lvec("e", n1)))
 	add(row("Dpttrs", ldim("n", "nrhs"), lvec("d", n), lvec("e", n1), lmat("b", n, nrhs)))
-	add(row("Dptcon", ldim("n"), lvec("d", n), lvec("e", n1), lscalar("anorm", 1), lvec("work", n)))
+	add(row("Dptcon", ldim("n"), lvec("d", n), lvec("e", n1), lscalar("anorm", 1), lvec("work", n)).also("anorm", 0))
 	add(row("Dsterf", ldim("n"), lvec("d", n), lvec("e", n1)))
 
 	// ---- permutations ----
